@@ -127,3 +127,10 @@ package header
 //@   requires [C07] non-degenerate: from.Height() + 1 < to
 //@   ensures result1 == nil ==> len(result0) >= 1 && len(result0) <= to - from.Height() - 1
 //@   ensures result1 == nil ==> forall i int :: 0 <= i && i < len(result0) ==> result0[i].Height() == from.Height() + 1 + i && (verified(from) ==> verified(result0[i]))
+
+// ---- decoding / validation history (C05, C11, C13)
+//@ predicate validated(h H) -- h.Validate() returned nil (history predicate, defined at the call's exit)
+//@ predicate decodedFrom(h H, b Bytes) -- h.UnmarshalBinary(b) returned nil (history predicate)
+
+//@ func New()
+//@   inline
